@@ -6,6 +6,10 @@ people who read a property; these are every instance of a few small operators, c
 
   mech_mutants.py gen <repo> <out-dir>     writes <out-dir>/<n>.diff and <out-dir>/index.tsv
                                            (n, file, line, operator, properties to run)
+  mech_mutants.py gen2 <repo> <out-dir>    second batch (numbered from 301): the same operators on
+                                           17 more files, plus literal flips, break/continue,
+                                           min/max, +-1, saturating->wrapping, counters not
+                                           incremented, on all 41 files
 
 Operators (one per mutant, applied to non-test, non-comment code only):
   neg-if     `if COND {`            -> `if !(COND) {`
@@ -45,6 +49,60 @@ FILES = {
     "standard/src/compression/brotli/decomp.rs": "C14 C06",
     "standard/src/compression/lz4/decomp.rs": "C14 C06",
 }
+
+FILES2 = {
+    "server/src/quic.rs": "C15 C17",
+    "client/src/connection.rs": "C15 C12 C03",
+    "protocol/src/frame.rs": "C05 C06 C11",
+    "protocol/src/bistream.rs": "C05 C03 C16",
+    "standard/src/codecs/bincode_codec.rs": "C14 C06",
+    "standard/src/codecs/bytes_codec.rs": "C14 C06",
+    "standard/src/codecs/string_codec.rs": "C14 C06",
+    "standard/src/compression/brotli/comp.rs": "C14",
+    "standard/src/compression/lz4/comp.rs": "C14",
+    "tools/src/commands/gen_certs/cert_gen.rs": "C15",
+    "tools/src/commands/gen_certs/certificate_builder.rs": "C15",
+    "tools/src/commands/gen_certs/key_pair.rs": "C15",
+    "tools/src/commands/gen_certs/validity_range.rs": "C15",
+    "client/src/traits/try_into_u64.rs": "C04 C12",
+    "client/src/streams/request_reply/states.rs": "C04",
+    "client/src/streams/builder.rs": "C12",
+    "client/src/keep_alive/connection_status.rs": "C12",
+}
+
+
+def mutants2_for(text):
+    """second batch of operators, applied to every file"""
+    out = []
+    for i, l in code_lines(text):
+        bare = strip_strings(l).split("//")[0]
+        if "//" in l:
+            continue
+        for a, b in (("true", "false"), ("false", "true")):
+            if re.search(r"\b%s\b" % a, bare) and "=>" not in bare and "assert" not in bare:
+                out.append((i, f"lit:{a}", re.sub(r"\b%s\b" % a, b, l, count=1)))
+                break
+        s = l.strip()
+        if s == "break;":
+            out.append((i, "break->continue", l.replace("break;", "continue;")))
+        if ".min(" in bare:
+            out.append((i, "min->max", l.replace(".min(", ".max(", 1)))
+        elif ".max(" in bare:
+            out.append((i, "max->min", l.replace(".max(", ".min(", 1)))
+        m = re.search(r"([A-Za-z_\)\]]) ([+-]) 1\b", bare)
+        if m and "=>" not in bare:
+            out.append((i, "pm1", l.replace(f"{m.group(1)} {m.group(2)} 1", f"{m.group(1)} {'-' if m.group(2) == '+' else '+'} 1", 1)))
+        if "saturating_" in bare:
+            out.append((i, "saturating->wrapping", l.replace("saturating_", "wrapping_", 1)))
+        m = re.match(r"^(\s*)(if let .* = .* \{)\s*$", l)
+        if re.match(r"^\s*return (Err|Ok|Poll::Ready|Poll::Pending).*;$", l) and not re.search(r"return Poll::Pending;", l):
+            pass
+        if re.match(r"^\s*Poll::Pending => return Poll::Pending,$", l):
+            out.append((i, "pending-arm", l.replace("return Poll::Pending", "()")))
+        if re.match(r"^\s*[a-z_]+ \+= 1;$", l):
+            out.append((i, "del-incr", None))
+    return out
+
 
 REL = [("<=", "<"), (">=", ">"), (" < ", " <= "), (" > ", " >= "), ("==", "!="), ("!=", "==")]
 
@@ -102,17 +160,28 @@ def mutants_for(text):
 
 
 def main():
-    if len(sys.argv) != 4 or sys.argv[1] != "gen":
+    if len(sys.argv) != 4 or sys.argv[1] not in ("gen", "gen2"):
         print(__doc__)
         sys.exit(2)
     repo, outdir = sys.argv[2], sys.argv[3]
     os.makedirs(outdir, exist_ok=True)
-    n = 0
+    second = sys.argv[1] == "gen2"
+    n = 300 if second else 0
     index = []
-    for f, props in FILES.items():
+    work = []
+    if second:
+        # the first batch's operators on the additional files, the additional operators everywhere
+        for f, props in FILES2.items():
+            work.append((f, props, mutants_for))
+        for f, props in list(FILES.items()) + list(FILES2.items()):
+            work.append((f, props, mutants2_for))
+    else:
+        for f, props in FILES.items():
+            work.append((f, props, mutants_for))
+    for f, props, gen in work:
         path = os.path.join(repo, f)
         text = open(path).read()
-        for (i, op, new) in mutants_for(text):
+        for (i, op, new) in gen(text):
             lines = text.split("\n")
             if new is None:
                 del lines[i]
